@@ -63,7 +63,7 @@ CLAIMS = {
     "C11": c("Decides task-group discipline on every normal exit and, with a CancelledError edge forked at every "
              "may-suspend await of the run (inlined into the nested form) and of the broadcast, that every path leaving "
              "the ownership scope has cancelled and awaited all owned tasks; checks that every cancel() is part of "
-             "cancel-all-then-await-unbounded (single-cancellation model)."
+             "cancel-all-then-await-unbounded."
              " Two deliveries of CancelledError are modelled at every await (a canceller can be cancelled while it waits, and cancels again).",
              "job code that swallows CancelledError.", ENGINE + " with cancellation edges"),
     "C12": c("Necessary conditions: all entry jobs started before the first wait; candidates = union over all done "
